@@ -15,7 +15,7 @@ RULE = ('case = (word from a branch row with offsets from corners/random - every
         'CBZ/CBNZ), instruction placed at 0x10000, 0x0, 0x4, 0xFFFFFFF0, 0xFFFFFFFC (increment and targets wrap) and, in Thumb '
         'state, at halfword-but-not-word aligned addresses (Align(PC,4) of BLX / ADR-like forms), '
         'registers holding interworking targets (bit0 set/clear, bit1 set), arch 4..7; PC, LR, T bit and everything else '
-        'compared; PC alignment invariant (Thumb: bit0 = 0, ARM: bits1:0 = 0) after every step; plus every load and data-processing encoding with the PC as destination (register lists with bit 15, Rt = 15, Rd = 15; addresses solved onto boundaries); non-trivial = branch '
+        'compared; PC alignment invariant (Thumb: bit0 = 0, ARM: bits1:0 = 0) after every step; plus every load and data-processing encoding with the PC as destination (register lists with bit 15, Rt = 15, Rd = 15; addresses solved onto boundaries), and every store / data-processing / load encoding with the PC as a SOURCE operand (stored register, bit 15 of a stored list, Rn, Rm, base); non-trivial = branch '
         'taken; distinct = (row, configuration, code address class)')
 ASSUMPTIONS = ['vf/ref/sem_sys.py transcribes the branch pseudocode; BXJ with Jazelle enabled / trapped is not judged']
 CODES = [0x10000, 0x10000, 0x0, 0x4, 0xFFFFFFF0, 0xFFFFFFFC, 0xFFFFF800, 0x10FF0, 0x10002, 0x10006, 0x2, 0x6, 0xFFFFFFF2, 0xFFFFFFFA,
@@ -56,6 +56,28 @@ def pc_operand(row, rng):
     return None
 
 
+PCSRC_FAMILY = ('ls', 'stm', 'push', 'stm_user', 'dp', 'adr')
+
+
+def pc_source(row, rng):
+    """pin a SOURCE operand to the PC: the stored register of a single store (the one-register PUSH aliases included), bit 15
+    of a stored register list, the first or second operand of a data-processing instruction, the base of a load"""
+    f = row.fields
+    name = row.name
+    if 'strex' in name or name.startswith(('pld', 'pli')):
+        return None
+    if name.startswith(('stm', 'push')) and 'r' in f and len(f['r']) == 16:
+        return {'r': (lockstep_reglist(rng, 16) | (1 << 15)) & 0xFFFF}
+    if name.startswith(('str', 'push')) and 't' in f and len(f['t']) == 4:
+        return {'t': 15}
+    if row.sem and row.sem.startswith('dp'):
+        cands = [ch for ch in 'nm' if ch in f and len(f[ch]) == 4]
+        return {rng.choice(cands): 15} if cands else None
+    if row.sem and row.sem.startswith('ls') and name.startswith('ldr') and 'n' in f and len(f['n']) == 4:
+        return {'n': 15}
+    return None
+
+
 def lockstep_reglist(rng, k):
     from vf import lockstep
     return lockstep.reglist(rng, k)
@@ -64,6 +86,7 @@ def lockstep_reglist(rng, k):
 def plan(tier, seed):
     specs = L.plan_rows(ID, FAMILY, tier, seed, 900, 40000, 12, 48)
     specs += [dict(s, kind='pcrows') for s in L.plan_rows(ID, PC_FAMILY, tier, seed, 60, 3000, 8, 32)]
+    specs += [dict(s, kind='pcsrc') for s in L.plan_rows(ID, PCSRC_FAMILY, tier, seed, 30, 1500, 8, 32)]
     specs.append(dict(kind='enum', seed=seed, shard=0, reps=1 if tier == 'quick' else 40))
     return specs
 
@@ -84,6 +107,13 @@ def run_shard(spec):
                 r.sctlr.u = 1
         return L.run_rows(ID, dict(spec, kind='rows'), PC_FAMILY, regs_fn=lambda rng: [__import__('vf.scen', fromlist=['x']).reg_value(rng) for _ in range(15)],
                           after=after, fixed_fn=pc_operand, solve_addr=0.1)
+    if spec['kind'] == 'pcsrc':
+        # ... and every encoding that can READ the PC as a source operand, with the PC there: the value read is the
+        # instruction's own address plus 8 (ARM) or plus 4 (Thumb), whatever the instruction then does with it
+        def after2(ctx, rng, desc):
+            if ctx.cfg['arch_version'] >= 7:
+                ctx.cpu.registers.sctlr.u = 1
+        return L.run_rows(ID, dict(spec, kind='rows'), PCSRC_FAMILY, after=after2, fixed_fn=pc_source, solve_addr=0.3)
     return L.run_rows(ID, spec, FAMILY, regs_fn=regs, prep_kw=prep)
 
 
